@@ -111,6 +111,21 @@ CHECKS = {
         "unconstrained for raising (wire checks still apply)",
         "DESIGN.md §4 C12",
     ),
+    "C13": (
+        "exploration",
+        "exhaustive enumeration of two-way splits of 18 opening/follow-up combinations + "
+        "Hypothesis-generated openings with k-way splits; oracle = expected protocol per "
+        "opening, exactly-once service with own bodies, metamorphic equality with the unsplit "
+        "delivery",
+        "ALPN h2 / http/1.1 / cleartext x HTTP/2 preface, h2c upgrade (default, empty, absent, "
+        "non-default HTTP2-Settings; with a body = ignored), WebSocket upgrade (token forms), "
+        "plain requests, followed by further requests in the same or a later read: the scope's "
+        "protocol must be the one the opening dictates, h2c answers 101 then stream 1, every "
+        "request reaches the application once with its own body and gets its own response, and "
+        "any split of the bytes yields the same normalised observation as no split.",
+        "client byte stream fixed up front; ALPN injected via the attribute the server reads",
+        "DESIGN.md §4 C13",
+    ),
     "C17": (
         "exploration",
         "Hypothesis-generated requests x WSGI application shapes through WSGIWrapper, the WSGI "
